@@ -11,7 +11,7 @@ NAMES_PLAIN = ["a", "b", "c", "d", "n1", "n2", "x", "y"]
 NAMES_COLLIDE = ["a", "A", "b", "B", "ab", "aB", "Ab", "a1", "1a", "&x", "&X", "a-b", "a b", "a_b",
                  "x_sdn_1_", "a[0]", "a/b", "_a", ""]
 USER_KEYS = ["k", "EDIF.properties", "VERILOG.x"]
-USER_VALUES = ["v", 1, True, ["l", 2], {"d": 1}]
+USER_VALUES = ["v", 1, True, ["l", 2], {"d": 1}, {"__tuple__": ["SLICE", [3, 4]]}, {"__tuple__": ["t", 1]}]
 
 DEFAULT_WEIGHTS = {
     "build": 6.0, "attach": 3.0, "remove": 2.5, "bulk_remove": 1.2, "reorder": 1.2,
